@@ -21,6 +21,9 @@ enum Case {
     TrimMix { cid: Cid, l: usize, pick: usize },
     /// trimming: bad^i good^j bad^k good^l bad^m with run lengths from a boundary set; (i, j) fixed per case
     TrimRuns { cid: Cid, i: usize, j: usize },
+    /// trimming: every well-formed 2-byte UTF-8 sequence with lead byte `lead` (and a family of 3- and 4-byte ones)
+    /// before / after / inside an acceptable run
+    TrimUtf8 { cid: Cid, lead: u8 },
 }
 
 fn run_lens(cid: Cid) -> Vec<usize> {
@@ -51,6 +54,9 @@ fn gen(t: Tier, _seed: u64, emit: &mut dyn FnMut(Case)) {
             emit(Case::ConvShaped { n, s });
         }
     }
+    for n in huge_lengths(2) {
+        emit(Case::ConvShaped { n, s: n % 2 });
+    }
     for n in [0usize, 1, 2, 3, 5, 31, 32, 33, 64, 65, 96] {
         emit(Case::ConvArray { n });
     }
@@ -59,6 +65,9 @@ fn gen(t: Tier, _seed: u64, emit: &mut dyn FnMut(Case)) {
             for pick in 0..t.pick(1, 3) {
                 emit(Case::TrimMix { cid, l, pick });
             }
+        }
+        for lead in 0xC2..=0xDFu8 {
+            emit(Case::TrimUtf8 { cid, lead });
         }
         let rl = run_lens(cid);
         for &i in &rl {
@@ -99,7 +108,7 @@ fn run(c: &Case, out: &mut Out) {
             }
             arr!(0, 1, 2, 3, 5, 31, 32, 33, 64, 65, 96);
         }
-        Case::TrimMix { cid, .. } | Case::TrimRuns { cid, .. } => dispatch!(*cid, trim_g(c, out)),
+        Case::TrimMix { cid, .. } | Case::TrimRuns { cid, .. } | Case::TrimUtf8 { cid, .. } => dispatch!(*cid, trim_g(c, out)),
     }
 }
 
@@ -293,6 +302,48 @@ fn trim_g<A: Sx>(c: &Case, out: &mut Out) {
                 let v: Vec<u8> = idx.iter().map(|&i| cs[i as usize]).collect();
                 trim_one::<A>(&sp, &v, out);
             });
+        }
+        Case::TrimUtf8 { lead, .. } => {
+            let acc = sp.accepted();
+            let good: Vec<u8> = (0..5).map(|x| acc[(x * 2 + 1) % acc.len()]).collect();
+            let mut chars: Vec<Vec<u8>> = (0x80..=0xBFu8).map(|c| vec![*lead, c]).collect();
+            if *lead == 0xC2 {
+                // 3- and 4-byte characters whose scalar value has an accepted byte as its low byte
+                for &a in &acc {
+                    for hi in [0x0800u32, 0x2000, 0xFF00, 0x1_0000, 0x1_F600] {
+                        if let Some(ch) = char::from_u32(hi | a as u32) {
+                            let mut b = [0u8; 4];
+                            chars.push(ch.encode_utf8(&mut b).as_bytes().to_vec());
+                        }
+                    }
+                }
+            }
+            for ch in &chars {
+                for layout in 0..4 {
+                    let mut v: Vec<u8> = Vec::new();
+                    match layout {
+                        0 => {
+                            v.extend(ch);
+                            v.extend(&good);
+                            v.extend(ch);
+                        }
+                        1 => {
+                            v.extend(&good);
+                            v.extend(ch);
+                        }
+                        2 => {
+                            v.extend(ch);
+                            v.extend(&good);
+                        }
+                        _ => {
+                            v.extend(&good[..2]);
+                            v.extend(ch);
+                            v.extend(&good[2..]);
+                        }
+                    }
+                    trim_one::<A>(&sp, &v, out);
+                }
+            }
         }
         Case::TrimRuns { i, j, .. } => {
             let (good, bad) = picks(&sp, 1);
